@@ -125,7 +125,8 @@ func (viso *VirtualISO) init() error {
 
 		volumeName = ps3ModeVolumeName
 	} else {
-		_, volumeName = filepath.Split(viso.root)
+		// the volume is named after the directory itself, however its path was spelled (trailing separator, "/.")
+		_, volumeName = filepath.Split(filepath.Clean(viso.root))
 	}
 
 	if err := viso.buildFS(volumeName, gameCode); err != nil {
